@@ -402,6 +402,66 @@ fn gen_program(rng: &mut Rng, kind: &str, pl_none: usize, pl_err: usize) -> Prog
     Prog { main, extra, kind_line, chain, tags: g.tags.clone() }
 }
 
+/// Adversarial layout: byte offsets are only unique within one file.  For one caller/callee pair living in
+/// different files, stretch one line of the caller (the call site, or the caller's final expression) with a
+/// trailing comment and pad the callee's file so that the callee's header and body up to its failing line /
+/// call site occupy the SAME byte offsets as that stretched line.  Line numbers are unchanged (only trailing
+/// comments are added), so the expected chain stays valid.  Returns true when a pair was aligned.
+fn align_offsets(p: &mut Prog, rng: &mut Rng) -> bool {
+    let mut files: Vec<(String, Vec<String>)> = vec![("main.abra".to_string(), p.main.lines().map(|l| l.to_string()).collect())];
+    for (n, t) in &p.extra {
+        files.push((n.clone(), t.lines().map(|l| l.to_string()).collect()));
+    }
+    let idx_of = |files: &Vec<(String, Vec<String>)>, name: &str| files.iter().position(|f| f.0 == name);
+    let off = |lines: &Vec<String>, line1: usize| -> usize { lines[..line1 - 1].iter().map(|l| l.len() + 1).sum() };
+    let pairs: Vec<usize> = (0..p.chain.len().saturating_sub(1)).filter(|&i| p.chain[i].file != p.chain[i + 1].file).collect();
+    if pairs.is_empty() {
+        return false;
+    }
+    let i = *rng.pick(&pairs);
+    let (callee, caller) = (&p.chain[i], &p.chain[i + 1]);
+    let (Some(fa), Some(fb)) = (idx_of(&files, &caller.file), idx_of(&files, &callee.file)) else { return false };
+    let header = format!("fn {}(", callee.func);
+    let Some(hb0) = files[fb].1.iter().position(|l| l.starts_with(&header)) else { return false };
+    let hb = hb0 + 1;
+    let lb = callee.hi;
+    if lb < hb {
+        return false;
+    }
+    let region = off(&files[fb].1, lb) + files[fb].1[lb - 1].len() - off(&files[fb].1, hb);
+    // target line in the caller's file
+    let mut target = caller.lo;
+    if caller.func != "<main>" && rng.chance(1, 2) {
+        if let Some(close) = files[fa].1.iter().enumerate().skip(caller.lo).find(|(_, l)| l.as_str() == "}").map(|(k, _)| k) {
+            if close >= 1 && close + 1 > caller.lo {
+                target = close; // 1-based number of the line before the closing brace
+            }
+        }
+    }
+    if target == 0 || target > files[fa].1.len() {
+        return false;
+    }
+    files[fa].1[target - 1].push_str(&format!(" // {}", "p".repeat(region + 24)));
+    // a line before both regions that can take padding: the helper function header near the top of each file
+    let pad_line = |lines: &Vec<String>, before: usize| lines.iter().take(before - 1).position(|l| l.starts_with("fn helper") && l.ends_with('{'));
+    let oa = off(&files[fa].1, target) + 2;
+    let ob = off(&files[fb].1, hb);
+    if oa > ob {
+        let Some(k) = pad_line(&files[fb].1, hb) else { return false };
+        let d = oa - ob;
+        files[fb].1[k].push_str(&if d >= 3 { format!(" //{}", "q".repeat(d - 3)) } else { " ".repeat(d) });
+    } else if ob > oa {
+        let Some(k) = pad_line(&files[fa].1, target) else { return false };
+        let d = ob - oa;
+        files[fa].1[k].push_str(&if d >= 3 { format!(" //{}", "q".repeat(d - 3)) } else { " ".repeat(d) });
+    }
+    let text = |l: &Vec<String>| { let mut t = l.join("\n"); t.push('\n'); t };
+    p.main = text(&files[0].1);
+    p.extra = files[1..].iter().map(|f| (f.0.clone(), text(&f.1))).collect();
+    p.tags.push("layout:aligned-offsets".into());
+    true
+}
+
 fn callee_expr(i: usize, rec: &[usize]) -> String {
     if rec[i] > 0 { format!("f{}(x, {})", i + 1, rec[i]) } else { format!("f{}(x)", i + 1) }
 }
@@ -501,7 +561,7 @@ fn exec(p: &Prog) -> Res {
 
 fn main() {
     let mut ctx = Ctx::from_env("C32");
-    let prelude = std::fs::read_to_string("/repo/modules/prelude.abra").unwrap_or_default();
+    let prelude = std::fs::read_to_string(repo_root().join("modules/prelude.abra")).unwrap_or_default();
     let find = |needle: &str| prelude.lines().position(|l| l.contains(needle)).map(|i| i + 1).unwrap_or(0);
     let pl_none = find("panic(\"cannot unwrap option.none\")");
     let pl_err = find("panic(\"cannot unwrap result.err\")");
@@ -509,7 +569,10 @@ fn main() {
     let mut progs = vec![];
     for i in 0..n {
         let kind = KINDS[i % KINDS.len()];
-        let p = gen_program(&mut ctx.rng, kind, pl_none, pl_err);
+        let mut p = gen_program(&mut ctx.rng, kind, pl_none, pl_err);
+        if i % 2 == 1 {
+            align_offsets(&mut p, &mut ctx.rng);
+        }
         progs.push((kind, p));
     }
     let results = par_map(&progs, |(_, p)| exec(p));
